@@ -47,6 +47,9 @@ class FakeSocket:
     def sendall(self, b):
         if self.closed:
             raise OSError("closed")
+        if getattr(self, "reset", False):
+            # the peer has reset the connection: the write side fails
+            raise ConnectionResetError(104, "Connection reset by peer")
         self.pending += bytes(b)
 
     def _flush(self):
